@@ -57,6 +57,44 @@ def cases(draw, exhaustive=False):
           'names': draw(st.lists(gen.metric_names(max_tokens=5), max_size=40))}
 
 
+_edge = {}
+
+
+def edge_nodes(hash_type):
+  """Nodes one of whose replicas lands exactly on the last (0xffff) or first (0) ring position: two of them collide
+  there, and the published algorithm bumps past the end of the 16-bit range."""
+  if hash_type not in _edge:
+    top, bottom = [], []
+    for i in range(4000):
+      node = ('h%d' % i, 'a') if hash_type == 'carbon_ch' else ('10.0.0.1', 'cache%d' % i)
+      ps = set(refring.position(refring.replica_key(node, k, hash_type), hash_type) for k in range(refring.REPLICAS))
+      if 65535 in ps:
+        top.append(node)
+      if 0 in ps:
+        bottom.append(node)
+    _edge[hash_type] = (top[:6], bottom[:6])
+  return _edge[hash_type]
+
+
+@st.composite
+def edge_cases(draw):
+  hash_type = draw(st.sampled_from(['carbon_ch', 'fnv1a_ch']))
+  top, bottom = edge_nodes(hash_type)
+  pool = draw(st.sampled_from([top, top, bottom])) or top or bottom
+  nodes = []
+  if hash_type == 'carbon_ch':
+    picked = draw(st.lists(st.sampled_from(pool), min_size=min(2, len(pool)), max_size=min(3, len(pool)), unique=True))
+    nodes = [list(n) for n in picked]
+  else:
+    # the fnv1a_ch replica key only depends on the instance name: the same instance on several servers collides
+    inst = draw(st.sampled_from(pool))[1]
+    nodes = [[h_, inst] for h_ in draw(st.lists(st.sampled_from(HOSTS), min_size=2, max_size=3, unique=True))]
+  extra = (draw(st.sampled_from(HOSTS)), draw(st.sampled_from(INSTANCES)))
+  if list(extra) not in nodes and draw(st.booleans()):
+    nodes.insert(draw(st.integers(0, len(nodes))), list(extra))
+  return {'nodes': nodes, 'ops': [], 'hash': hash_type, 'keys': 'all', 'names': [], 'edge': True}
+
+
 def make_router(b, hash_type):
   settings = c05.FakeSettings(REPLICATION_FACTOR=1, DIVERSE_REPLICAS=False, ROUTER_HASH_TYPE=hash_type)
   cls = b.routers.DatapointRouter.plugins.get('consistent-hashing')
@@ -259,6 +297,8 @@ def run(ctx):
   if ctx.quick:
     run_given(ctx, cases(exhaustive=True), execute, 3, salt=1)
     run_given(ctx, cases(), execute, 260, salt=2)
+    run_given(ctx, edge_cases(), execute, 3, salt=3)
   else:
     run_given(ctx, cases(exhaustive=True), execute, 12, salt=1)
     run_given(ctx, cases(), execute, 500, salt=2)
+    run_given(ctx, edge_cases(), execute, 6, salt=3)
